@@ -221,8 +221,16 @@ def cidr_requires_a_nonempty_prefix_part():
               has_slash and strlen(second) > 0)
         check('cidr/accepted-was-parsed-by-netaddr',
               na.calls == ['IPNetwork'])
+        # (spelling out a default - IPNetwork(addr, version=None) - is the
+        # same question)
+        defaults = {'version': None, 'flags': 0, 'expand_partial': False,
+                    'implicit_prefix': False}
+        asked = [(nm, tuple([x for x in args if x is not None]),
+                  dict([(k, v) for k, v in kw.items()
+                        if not (k in defaults and v == defaults[k])]))
+                 for (nm, args, kw) in na.options]
         check('cidr/parsed-with-netaddr-defaults',
-              na.options == [('IPNetwork', (), {})])
+              asked == [('IPNetwork', (), {})])
     else:
         check('cidr/rejected', True)
 
@@ -550,7 +558,9 @@ def address_grammar_family():
 
 
 class SplitResultModel:
-    """urllib.parse.SplitResult: a 5-field record."""
+    """urllib.parse.SplitResult: a 5-field record with the namedtuple
+    interface."""
+    _fields = ('scheme', 'netloc', 'path', 'query', 'fragment')
 
     def __init__(self, scheme, netloc, path, query, fragment):
         self.scheme = scheme
@@ -558,6 +568,30 @@ class SplitResultModel:
         self.path = path
         self.query = query
         self.fragment = fragment
+
+    @classmethod
+    def _make(cls, iterable):
+        return cls(*list(iterable))
+
+    def _replace(self, **kw):
+        vals = dict([(f, getattr(self, f)) for f in self._fields])
+        for k, v in kw.items():
+            if k not in vals:
+                unmodelled('_replace(%s=...)' % k)
+            vals[k] = v
+        return type(self)(*[vals[f] for f in self._fields])
+
+    def _asdict(self):
+        return dict([(f, getattr(self, f)) for f in self._fields])
+
+    def __iter__(self):
+        return iter([getattr(self, f) for f in self._fields])
+
+    def __len__(self):
+        return 5
+
+    def __getitem__(self, i):
+        return [getattr(self, f) for f in self._fields][i]
 
 
 class FakeParse:
